@@ -8,6 +8,6 @@ if diff -q /repo/include/$F $D/include/$F >/dev/null; then echo "mutation did no
 diff /repo/include/$F $D/include/$F | head -8
 for prop in "$@"; do
   echo "== $prop"
-  SYMX_REPO=$D SYMX_REPLAY=$D/replay timeout 1500 /verif/check $prop --tier ${TIER:-quick} --no-evidence ${ONLY:+--only "$ONLY"} 2>&1 | grep -E "^VIOLATION|^UNCONFIRMED|^TASK-ERROR|tier=|^KNOWN|obligation:" | awk '{print substr($0,1,230)}' | sort | uniq -c | sort -rn | awk 'NR<=6 || /tier=/'
+  SYMX_REPO=$D SYMX_REPLAY=$D/replay SYMX_BUILD=$D/build timeout 1500 /verif/check $prop --tier ${TIER:-quick} --no-evidence ${ONLY:+--only "$ONLY"} 2>&1 | grep -E "^VIOLATION|^UNCONFIRMED|^TASK-ERROR|tier=|^KNOWN|obligation:" | awk '{print substr($0,1,230)}' | sort | uniq -c | sort -rn | awk 'NR<=6 || /tier=/'
 done
 rm -rf $D
